@@ -55,7 +55,7 @@ class C05(object):
     required_counters = ('models.judged', 'lhs.judged', 'rhs_names.judged', 'meaning.judged', 'embedded.judged',
                          'embedded.in_global_equation', 'placeholders.handed_out', 'embedded.form.term_product',
                          'embedded.form.term_ratio', 'embedded.form.string_rhs', 'embedded.form.exogenous', 'late_sector.declared',
-                         'codes_generated_mid_construction', 'built_by_step_runner', 'cross_rates.requested_before_build',
+                         'codes_generated_mid_construction', 'built_by_step_runner', 'cross_rates.requested_before_build', 'locals_named_like_math_symbols.declared',
                          'rebuilt_with_names_kept_from_before_first_build')
 
     def n_cases(self, tier):
@@ -109,6 +109,15 @@ class C05(object):
                 late.AddVariable('Y', 'uses a local name', 'X + 1.0')
                 sectors.append(((ck0, 'LATE'), late))
                 rec.count('late_sector.declared')
+            if case['eseed'] % 3 == 0:
+                # local variables named like math / builtin symbols (pi = inflation, gamma, e, tau, sum, id), used by
+                # their local names in the same sector: they are sector variables like any other
+                hsec = rng.choice(sectors)[1]
+                if 'pi' not in hsec.EquationBlock:
+                    for nm, val in (('pi', '0.02'), ('gamma', '0.5'), ('e', '1.25'), ('tau', '0.2'), ('sum', '4.0'), ('id', '7.0')):
+                        hsec.AddVariable(nm, 'a local variable named like a library symbol', val)
+                    hsec.AddVariable('USES_LOCALS', 'refers to them by their local names', 'pi*2.0 + gamma - e + tau*sum + id')
+                    rec.count('locals_named_like_math_symbols.declared')
             # cross rates requested by user code before the build (the build itself asks for the same rates later,
             # when it converts cross-currency flows)
             ext = mod.ExternalSector
